@@ -2,17 +2,27 @@
 Model of `/repo/ring/ring.go` (generic copy of `container/ring`) on a heap of nodes, and of
 `/repo/ring/buffered.go` on top of it.  Core Lean only.
 
-A `*Ring[T]` is an index into the heap (`nil` = `none`).  A node holds `next`, `prev`, `Value`.
-Go's lazily initialised zero `Ring{}` (`next == nil`, every method calls `init` before it looks)
-is modelled by `alloc` creating the node already self-linked; no method can observe the difference.
+A `*Ring[T]` is an index into the heap (`nil` = `none`).  A node holds `next`, `prev` (both
+`Option Nat`: Go's nil) and `Value`.  A zero-value / literal `Ring{}` has `next = prev = nil`; the
+methods initialise it lazily exactly where the Go code does (`initNode` = `r.init()` when
+`r.next == nil`).  Two layers:
+
+* the *logical* layer (`nx`, `pv`, `move`, `link`, `len`, `doAll` …) reads a nil link as a link to
+  the node itself — an uninitialised node *is* a one-element ring — and performs the same field
+  writes as the code (including `init`);
+* the *Go* layer (`Go.next`, `Go.link`, `Go.len`, `Go.doAll` …) follows the code statement by
+  statement over the raw fields, in `Outcome`: dereferencing nil is a panic.  `KitProofs` shows that
+  on every heap reachable by ring operations it never panics and equals the logical layer.
+
 Loops that Go runs "until the pointer comes back" (`Len`, `Do`) carry a fuel equal to the heap size;
 `KitProofs` shows that fuel suffices for every well-formed ring.
 -/
+import KitModel.Go.Prelude
 namespace Kit.Ring
 
 structure Node (α : Type) where
-  next : Nat
-  prev : Nat
+  next : Option Nat
+  prev : Option Nat
   val : α
   deriving Repr
 
@@ -20,33 +30,43 @@ abbrev Heap (α : Type) := Array (Node α)
 
 variable {α : Type}
 
-/-! ### field access (out-of-range reads give a self-loop / the default value; never happens on
-well-formed rings) -/
+/-! ### field access -/
 
-def nx (h : Heap α) (i : Nat) : Nat := match h[i]? with | some n => n.next | none => i
-def pv (h : Heap α) (i : Nat) : Nat := match h[i]? with | some n => n.prev | none => i
+/-- the raw fields (`none` = nil, also for a dangling index) -/
+def rawNext (h : Heap α) (i : Nat) : Option Nat := match h[i]? with | some n => n.next | none => none
+def rawPrev (h : Heap α) (i : Nat) : Option Nat := match h[i]? with | some n => n.prev | none => none
+
+/-- logical links: a nil link counts as a link to the node itself -/
+def nx (h : Heap α) (i : Nat) : Nat := (rawNext h i).getD i
+def pv (h : Heap α) (i : Nat) : Nat := (rawPrev h i).getD i
 def vl [Inhabited α] (h : Heap α) (i : Nat) : α := match h[i]? with | some n => n.val | none => default
 
-def setNext (h : Heap α) (i v : Nat) : Heap α := h.modify i fun n => { n with next := v }
-def setPrev (h : Heap α) (i v : Nat) : Heap α := h.modify i fun n => { n with prev := v }
+def setNext (h : Heap α) (i v : Nat) : Heap α := h.modify i fun n => { n with next := some v }
+def setPrev (h : Heap α) (i v : Nat) : Heap α := h.modify i fun n => { n with prev := some v }
 def setVal (h : Heap α) (i : Nat) (v : α) : Heap α := h.modify i fun n => { n with val := v }
 
-/-- `new(Ring[T])` followed by the `init()` every method performs first. -/
+/-- logical effect of `if r.next == nil { r.init() }` (what every method does first): nil links
+become self links.  (`Go.init` below writes both fields as the code does; the two coincide whenever
+`next == nil` implies `prev == nil`, which holds at every method boundary.) -/
+def initNode (h : Heap α) (r : Nat) : Heap α :=
+  h.modify r fun n => { n with next := some (n.next.getD r), prev := some (n.prev.getD r) }
+
+/-- `new(Ring[T])` / `&Ring[T]{Value: v}`: an uninitialised element -/
 def alloc (h : Heap α) (v : α) : Heap α × Nat :=
-  (h.push { next := h.size, prev := h.size, val := v }, h.size)
+  (h.push { next := none, prev := none, val := v }, h.size)
 
-/-! ### ring.go -/
+/-! ### ring.go, logical layer -/
 
-/-- `r.Next()` -/
+/-- `r.Next()` (value; the heap effect is `initNode h r`) -/
 def next (h : Heap α) (r : Nat) : Nat := nx h r
-/-- `r.Prev()` -/
+/-- `r.Prev()` (value; the heap effect is `initNode h r`) -/
 def prev (h : Heap α) (r : Nat) : Nat := pv h r
 
 def iter (f : Nat → Nat) : Nat → Nat → Nat
   | 0, r => r
   | k + 1, r => iter f k (f r)
 
-/-- `r.Move(n)`: `n < 0` follows `prev`, `n > 0` follows `next`. -/
+/-- `r.Move(n)` (value; the heap effect is `initNode h r`): `n < 0` follows `prev`, `n > 0` follows `next`. -/
 def move (h : Heap α) (r : Nat) (n : Int) : Nat :=
   if n < 0 then iter (pv h) (-n).toNat r else iter (nx h) n.toNat r
 
@@ -55,7 +75,7 @@ def newLoop (v : α) : Nat → Heap α → Nat → Heap α × Nat
   | 0, h, p => (h, p)
   | k + 1, h, p =>
     let q := h.size
-    let h := h.push { next := q, prev := p, val := v }
+    let h := h.push { next := none, prev := some p, val := v }
     let h := setNext h p q
     newLoop v k h q
 
@@ -64,7 +84,7 @@ def new (h : Heap α) (n : Int) (v : α) : Heap α × Option Nat :=
   if n ≤ 0 then (h, none)
   else
     let r := h.size
-    let h := h.push { next := r, prev := r, val := v }
+    let h := h.push { next := none, prev := none, val := v }
     let (h, p) := newLoop v (n.toNat - 1) h r
     let h := setNext h p r
     let h := setPrev h r p
@@ -72,10 +92,12 @@ def new (h : Heap α) (n : Int) (v : α) : Heap α × Option Nat :=
 
 /-- `r.Link(s)` -/
 def link (h : Heap α) (r : Nat) (s : Option Nat) : Heap α × Nat :=
+  let h := initNode h r          -- n := r.Next()
   let n := nx h r
   match s with
   | none => (h, n)
   | some s =>
+    let h := initNode h s        -- p := s.Prev()
     let p := pv h s
     let h := setNext h r s
     let h := setPrev h s r
@@ -87,14 +109,14 @@ def link (h : Heap α) (r : Nat) (s : Option Nat) : Heap α × Nat :=
 def unlink (h : Heap α) (r : Nat) (n : Int) : Heap α × Option Nat :=
   if n ≤ 0 then (h, none)
   else
-    let (h, x) := link h r (some (move h r (n + 1)))
+    let (h, x) := link (initNode h r) r (some (move h r (n + 1)))
     (h, some x)
 
 def lenLoop (h : Heap α) (r : Nat) : Nat → Nat → Nat → Nat
   | 0, _, acc => acc
   | fuel + 1, p, acc => if p = r then acc else lenLoop h r fuel (nx h p) (acc + 1)
 
-/-- `r.Len()` for a non-nil `r`. -/
+/-- `r.Len()` for a non-nil `r` (value; the heap effect is `initNode h r`). -/
 def len (h : Heap α) (r : Nat) : Nat := lenLoop h r h.size (nx h r) 1
 
 /-- `r.Len()` including the nil receiver. -/
@@ -106,17 +128,106 @@ def doLoop [Inhabited α] (h : Heap α) (r : Nat) : Nat → Nat → List α → 
   | 0, _, acc => acc.reverse
   | fuel + 1, p, acc => if p = r then acc.reverse else doLoop h r fuel (nx h p) (vl h p :: acc)
 
-/-- `r.Do(f)`: the values passed to `f`, in order. -/
+/-- `r.Do(f)`: the values passed to `f`, in order (the heap effect is `initNode h r`). -/
 def doAll [Inhabited α] (h : Heap α) : Option Nat → List α
   | none => []
   | some r => doLoop h r h.size (nx h r) [vl h r]
 
+/-! ### ring.go, Go layer: statement by statement over the raw fields; nil dereference panics -/
+namespace Go
+
+/-- `p.f` for a pointer `p` that must not be nil -/
+def deref (what : String) : Option Nat → Outcome Nat
+  | some i => .ok i
+  | none => .panic ("nil pointer dereference: " ++ what)
+
+/-- `func (r *Ring) init()`: `r.next = r; r.prev = r` -/
+def init (h : Heap α) (r : Nat) : Heap α :=
+  h.modify r fun n => { n with next := some r, prev := some r }
+
+/-- `func (r *Ring) Next()`: `if r.next == nil { return r.init() }; return r.next` -/
+def next (h : Heap α) (r : Nat) : Outcome (Heap α × Nat) :=
+  match rawNext h r with
+  | none => .ok (init h r, r)
+  | some n => .ok (h, n)
+
+/-- `func (r *Ring) Prev()`; a nil `prev` behind a non-nil `next` would be returned as nil and
+blow up at the caller's next dereference: modelled as a panic here -/
+def prev (h : Heap α) (r : Nat) : Outcome (Heap α × Nat) :=
+  match rawNext h r with
+  | none => .ok (init h r, r)
+  | some _ => do let p ← deref "r.prev" (rawPrev h r); pure (h, p)
+
+def walk (h : Heap α) (field : Heap α → Nat → Option Nat) (what : String) : Nat → Nat → Outcome Nat
+  | 0, r => .ok r
+  | k + 1, r => do let r' ← deref what (field h r); walk h field what k r'
+
+/-- `func (r *Ring) Move(n int)` -/
+def move (h : Heap α) (r : Nat) (n : Int) : Outcome (Heap α × Nat) :=
+  match rawNext h r with
+  | none => .ok (init h r, r)
+  | some _ =>
+    if n < 0 then do let x ← walk h rawPrev "r = r.prev" (-n).toNat r; pure (h, x)
+    else do let x ← walk h rawNext "r = r.next" n.toNat r; pure (h, x)
+
+/-- `func (r *Ring) Link(s *Ring)` -/
+def link (h : Heap α) (r : Nat) (s : Option Nat) : Outcome (Heap α × Nat) := do
+  let (h, n) ← next h r
+  match s with
+  | none => pure (h, n)
+  | some s =>
+    let (h, p) ← prev h s
+    let h := setNext h r s
+    let h := setPrev h s r
+    let h := setPrev h n p
+    let h := setNext h p n
+    pure (h, n)
+
+/-- `func (r *Ring) Unlink(n int)` -/
+def unlink (h : Heap α) (r : Nat) (n : Int) : Outcome (Heap α × Option Nat) :=
+  if n ≤ 0 then .ok (h, none)
+  else do
+    let (h, m) ← move h r (n + 1)
+    let (h, x) ← link h r (some m)
+    pure (h, some x)
+
+/-- the loop `for p := …; p != r; p = p.next { n++ }` -/
+def lenLoop (h : Heap α) (r : Nat) : Nat → Nat → Nat → Outcome Nat
+  | 0, _, acc => .ok acc
+  | fuel + 1, p, acc =>
+    if p = r then .ok acc else do let q ← deref "p = p.next" (rawNext h p); lenLoop h r fuel q (acc + 1)
+
+/-- `func (r *Ring) Len()` -/
+def len (h : Heap α) : Option Nat → Outcome (Heap α × Nat)
+  | none => .ok (h, 0)
+  | some r => do
+    let (h, p) ← next h r
+    let n ← lenLoop h r h.size p 1
+    pure (h, n)
+
+def doLoop [Inhabited α] (h : Heap α) (r : Nat) : Nat → Nat → List α → Outcome (List α)
+  | 0, _, acc => .ok acc.reverse
+  | fuel + 1, p, acc =>
+    if p = r then .ok acc.reverse
+    else do let q ← deref "p = p.next" (rawNext h p); doLoop h r fuel q (vl h p :: acc)
+
+/-- `func (r *Ring) Do(f)`: `f(r.Value)` first, then `for p := r.Next(); p != r; p = p.next { f(p.Value) }` -/
+def doAll [Inhabited α] (h : Heap α) : Option Nat → Outcome (Heap α × List α)
+  | none => .ok (h, [])
+  | some r => do
+    let v := vl h r
+    let (h, p) ← next h r
+    let vs ← doLoop h r h.size p [v]
+    pure (h, vs)
+
+end Go
 
 /-! ### heap-changing ring operations as data (for statements over all operation sequences) -/
 
 inductive ROp where
   | new (n : Int)
-  | zero
+  | zero (v : Int)                       -- `new(Ring)` / `&Ring{Value: v}`
+  | touch (r : Nat)                      -- the heap effect of Next/Prev/Move/Len/Do on `r`
   | link (r : Nat) (s : Option Nat)
   | unlink (r : Nat) (n : Int)
   | set (r : Nat) (v : Int)
@@ -125,7 +236,8 @@ inductive ROp where
 /-- pointers must be allocated nodes (Go would dereference nil / garbage otherwise) -/
 def ringStep (h : Heap Int) : ROp → Heap Int
   | .new n => (Ring.new h n 0).1
-  | .zero => (alloc h 0).1
+  | .zero v => (alloc h v).1
+  | .touch r => initNode h r
   | .link r s => if r < h.size ∧ (∀ s', s = some s' → s' < h.size) then (link h r s).1 else h
   | .unlink r n => if r < h.size then (unlink h r n).1 else h
   | .set r v => setVal h r v
